@@ -175,4 +175,21 @@ Section Draw.
   (** Draw::draw on a canvas of the given size: [items] from item_cursor on *)
   Definition draw (o : dopts) (width height : nat) (reverse : bool) (line_cursor : nat) (items : list row) :=
     draw_rows o width height reverse line_cursor 0 items.
+  (** * the header widget (src/header.rs): --header lines, then the reserved --header-lines items,
+      one per row from the top (reverse layouts) or from the bottom; no scrolling, no dots; tag 7 *)
+  Definition header_line (width tabstop : nat) (t : text) : list cell :=
+    print_item (lp_init 2 (width - 2) 0 0 (width - 2) tabstop) (tagged MNone 0 7%N t).
+
+  Fixpoint header_from (width height tabstop : nat) (reverse : bool) (idx : nat) (lines : list text) : list (nat * list cell) :=
+    match lines with
+    | [] => []
+    | t :: r => ((if reverse then idx else height - idx - 1), header_line width tabstop t)
+                :: header_from width height tabstop reverse (S idx) r
+    end.
+
+  (** None: the widget refuses to draw (too narrow or too low) *)
+  Definition header_rows (width height tabstop : nat) (reverse : bool) (fixed reserved : list text) : option (list (nat * list cell)) :=
+    if (width <? 3)%nat then None
+    else if (height <? List.length fixed + List.length reserved)%nat then None
+    else Some (header_from width height tabstop reverse 0 (fixed ++ reserved)).
 End Draw.
